@@ -45,3 +45,6 @@ impl<'a> Rd<'a> {
     }
 }
 pub mod td;
+pub mod simple;
+pub mod theta;
+pub mod cpc;
